@@ -21,7 +21,8 @@ TRUSTED = [
     "atomicity: each os_atomic_* operation is one step; sequentially consistent interleaving (memory orders are compared with "
     "the source through the site lists, their strength is the subject of C05)",
     "the model lets a participant enter invoke2 only while fewer than T have entered, i.e. each of the T-1 helper continuations "
-    "pushed by _dispatch_apply_f is invoked at most once. Discharged by the root-queue model: C01_root_pop_unique "
+    "pushed by _dispatch_apply_f is invoked at most once. This is argued, not proved as one theorem (no statement mentions both "
+    "Apply.parts and RootQ.hpop), from the root-queue model: C01_root_pop_unique "
     "(Properties_C01_root.v: the k-th dequeue is the k-th push, no double dequeue) + C10_helper_batch_push_is_rootq_run "
     "(Proofs/ApplyRoot_proofs.v): RootQ models single-item pushes while dispatch_apply pushes its T-1 continuations as one "
     "pre-linked batch (one tail exchange, one link store); the theorem shows both shared states of the batch push are reachable "
@@ -35,7 +36,11 @@ TRUSTED = [
     "global tie: every recorded round (all participants of one dispatch_apply) is replayed as a run of Apply.gstep itself "
     "(Model/ApplyR.v: sched takes an action only if enabled in the model with the recorded outcome; C10_replay_reach), the order "
     "comes from the recorder's stamps made consistent with the exact chains of da_index / da_todo / da_thr_cnt / the event word; "
-    "a wrong order can only make a replay fail; the executable invariant inv_b (C10_inv_b_reach) is evaluated on the states passed",
+    "a wrong order can only make a replay fail; the executable invariant inv_b (C10_inv_b_reach) is evaluated on every state "
+    "passed for rounds of at most 700 actions and on the end state only for larger rounds; rounds beyond the action budget of the "
+    "tier are not replayed (counted in rounds_not_selected_budget)",
+    "the apply record is freed at most once (C10_record_freed_once) and exactly once iff all T participants ran "
+    "(C10_nothing_enabled_record); with a helper that never starts it is not freed",
     "the width theorem is about one apply on an otherwise quiescent chain (no concurrent change of the dq_state words between "
     "the reservation and the relinquish); dispatch_sync_f's own width unit is part of the state the theorem quantifies over",
     "kernel: futex_wait may return spuriously (each such return costs at most 3 more steps, C10_every_step_pays), FUTEX_WAKE "
